@@ -12,31 +12,7 @@ from .values import PyRaise, Unsupported, GenObj
 from .interp import Interp
 from .contract import H, REGISTRY, raw_function, model_value, Contract
 
-LEMMAS = []       # Lemma instances
-BOUNDED = []      # bounded stand-ins: dict(name, properties, module, func, bound)
-
-
-class Lemma:
-    """a contract without code: proved Dafny-style (explicit unfoldings and induction-hypothesis instances)"""
-    name = None
-    properties = ()
-
-    def vcs(self, ctx):
-        """yield (name, hyps, goal)"""
-        return []
-
-
-def lemma(cls):
-    LEMMAS.append(cls())
-    return cls
-
-
-def bounded(name, properties, bound):
-    def deco(fn):
-        BOUNDED.append(dict(name=name, properties=tuple(properties), fn=fn, bound=bound,
-                            module=fn.__module__, func=fn.__name__))
-        return fn
-    return deco
+from .contract import LEMMAS, BOUNDED, Lemma, lemma, bounded   # noqa: E402,F401
 
 
 def make_hooks(contract, cfg):
